@@ -62,10 +62,12 @@ def run(chk):
         if m_av != 'ok:' + ','.join(names):
             chk.mismatch('AVAILABLE_INTERVALS', {'impl': names, 'model': m_av})
     # --- impl side + monitors
+    grid_results = {}
     for i, (l, a, o, n, d) in enumerate(cases):
         enc = spelling(l, a, o)
         k = by_name[n]
         r = impl_transpose(kp, enc, k, d)
+        grid_results[(l, a, o, n, d)] = r
         chk.case((l, a, o, n, d), kind=('spellable' if (m_spec and m_spec[i].startswith('ok:')) else 'other'))
         if i % 4001 == 0:
             chk.sample({'pitch': enc, 'interval': n, 'direction': d, 'impl': r,
@@ -198,6 +200,35 @@ def run(chk):
             chk.violation('exact', f'a melody {melody} transposed {n} {d} note by note: the result for ({w_[0]},{w_[1]}) read {w_[2]} right after its call and reads '
                           f'{w_[3]} after the later calls (results share an object: {len({id(q) for _, _, q, _ in held}) != len(held)})',
                           {'melody': melody, 'interval': n, 'direction': d, 'history': 'held-results'})
+    # spellings OUTSIDE the grid have been handed to the library in this process (three and four accidentals, unknown letters,
+    # through the string API and the pitch objects; most of them are refused): the grid answers as before
+    for l in range(7):
+        for acc in ('###', '---', '####', '----', '#-', 'x'):
+            for o_ in (3, 4, 5):
+                body = spelling(l, 0, o_)
+                for n_ in ('P1', 'M2', 'octave'):
+                    for d_ in ('up', 'down'):
+                        impl_transpose(kp, body + acc, by_name[n_], d_)
+        for acc in ('+++', '---'):
+            try:
+                kp.AgnosticPitch('CDEFGAB'[l] + acc, 4).get_chroma()
+            except Exception:
+                pass
+            try:
+                kp.AgnosticPitch.to_transposed(kp.AgnosticPitch('CDEFGAB'[l] + acc, 4), by_name['M2'], 'up')
+            except Exception:
+                pass
+    na = 0
+    for (l, a, o, n, d), r0 in grid_results.items():
+        if o != 4:
+            continue
+        chk.case(('after-out-of-grid', l, a, o, n, d), kind='after-out-of-grid')
+        r1 = impl_transpose(kp, spelling(l, a, o), by_name[n], d)
+        if r1 != r0 and na < 10:
+            na += 1
+            chk.violation('exact', f'after spellings outside the grid (three / four accidentals) were handed to the library in this process: '
+                          f'transpose({spelling(l, a, o)!r}, {n}, {d}) = {r1!r}, before it was {r0!r}',
+                          {'pitch': spelling(l, a, o), 'interval': n, 'direction': d, 'history': 'out-of-grid-spellings-first'})
     chk.traces_validated = chk.evaluations
     chk.disagreements_checked = len(chk.broken)
 
